@@ -10,7 +10,9 @@
 (*   ("common") commits any subset of 1..k whose tables the destination    *)
 (*   has; the destination pre-populated with every subset of tables and    *)
 (*   blocks closed under "table => its blocks" (D0Mode "all"; "few" = the  *)
-(*   closure alone or every block); the packfile limit in Maxes (objects). *)
+(*   closure alone or every block; "bare" = the closure alone; TtsMode     *)
+(*   "ends" = no table or every table); the packfile limit in Maxes        *)
+(*   (objects).                                                            *)
 (*   The SCN line carries the statement's Final / Upper stores (it is      *)
 (*   printed once per scenario, not once per limit: Final does not depend  *)
 (*   on the limit, which invariant AtDone checks of the design).           *)
@@ -19,13 +21,14 @@
 (*   table optionally replaced by its corrupted variant; the SCN line      *)
 (*   carries the accepted prefix, the rejected object and the final store  *)
 (*   (RecvSeq).                                                            *)
-(* With Explore = TRUE the design of Transfer.tla is run from every        *)
+(* With SPECIFICATION Spec the design of Transfer.tla is run from every    *)
 (* initial state and checked (OrderAccepted, NoOrphanAccept, DstSound,     *)
-(* DstGrows, AtDone / AdvDone); with FALSE the scenarios are only printed. *)
+(* DstGrows, AtDone / AdvDone); with SpecPrint the scenarios are only      *)
+(* printed.                                                                *)
 (***************************************************************************)
 EXTENDS Transfer, TLC, Json
 
-CONSTANTS N, MinN, Family, Explore, D0Mode, Maxes, AdvMaxObjs,
+CONSTANTS N, MinN, Family, D0Mode, TtsMode, Maxes, AdvMaxObjs,
           Shard, NShards     \* this TLC process enumerates the scenarios with code = Shard (mod NShards)
 
 Tables == 1..3
@@ -39,10 +42,13 @@ MinOf(S) == CHOOSE m \in S : \A o \in S : m <= o
 
 SrcFull(n) == [c |-> 1..n, t |-> Tables, ti |-> Tables, p |-> Tables, b |-> Blocks, bi |-> Blocks, x |-> {}]
 
-BlockSets(T) == IF D0Mode = "all" THEN {X \in SUBSET Blocks : BlocksOf(RB, T) \subseteq X}
-                ELSE {BlocksOf(RB, T), Blocks}
+BlockSets(T) == CASE D0Mode = "all"  -> {X \in SUBSET Blocks : BlocksOf(RB, T) \subseteq X}
+                  [] D0Mode = "few"  -> {BlocksOf(RB, T), Blocks}
+                  [] D0Mode = "bare" -> {BlocksOf(RB, T)}
 D0s(k) == UNION {{[c |-> 1..k, t |-> T, ti |-> T, p |-> T, b |-> Bs, bi |-> BlocksOf(RB, T), x |-> {}]
                    : Bs \in BlockSets(T)} : T \in SUBSET Tables}
+
+TtsSets(TS) == IF TtsMode = "all" THEN SUBSET TS ELSE {{}, TS}
 
 P(d) == [c |-> d.c, t |-> d.t, ti |-> d.ti, p |-> d.p, b |-> d.b, bi |-> d.bi]
 
@@ -60,7 +66,7 @@ InitSend ==
     \E par \in Dags(n) :
       \E k \in 0..(n-1) :
         \E tab \in Tabs(n, k) :
-          \E tts \in SUBSET {tab[c] : c \in (k+1)..n} :
+          \E tts \in TtsSets({tab[c] : c \in (k+1)..n}) :
             \E d \in D0s(k) :
               \E common \in SUBSET {c \in 1..k : tab[c] \in d.t} :
                 \E mx \in Maxes :
@@ -68,8 +74,8 @@ InitSend ==
                       S == [i \in 1..(n-k) |-> k + i] IN
                   /\ Pre(r, SrcFull(n), d, S, tts, common)
                   /\ Start(r, SrcFull(n), d, S, tts, common, mx)
-                  /\ \/ mx # MinOf(Maxes)
-                     \/ PrintT(<<"SCN", ToJson(SendScn(r, k, tts, common, d))>>)
+                  /\ IF mx # MinOf(Maxes) THEN TRUE
+                     ELSE PrintT(<<"SCN", ToJson(SendScn(r, k, tts, common, d))>>)
 
 ObjsOfSend(r, k) ==
   LET TS == {r.tab[c] : c \in (k+1)..r.n} IN
@@ -100,8 +106,10 @@ InitAdv ==
 
 Init == IF Family = "send" THEN InitSend ELSE InitAdv
 
-GNext == Explore /\ Next
-Spec  == Init /\ [][GNext]_vars
+Spec == Init /\ [][Next]_vars                 \* the design is run from every scenario
+
+Stay == FALSE /\ UNCHANGED vars
+SpecPrint == Init /\ [][Stay]_vars            \* the scenarios are only printed
 
 (* adversarial streams: `sent` holds the whole order from the start *)
 AdvDone == AdvPost(sent)
